@@ -58,6 +58,9 @@ ALL_FEATURES = [
     "higher_order",     # functions taking function values
     "type_fn",          # (comptime T: type, comptime n: usize) -> type, instantiated locally
     "loops",            # functions with mutable locals and while loops
+    # --- rung 3 ---
+    "typed_user_globals",   # globals annotated with user-defined types:  p : T : comptime {..}
+    "global_readers",       # globals that read other aggregate globals:  r :: comptime { p.a }
 ]
 
 
@@ -276,6 +279,8 @@ class _Gen:
         self.struct_takers = {}   # fn name -> struct name
         self.generic_type_fns = []
         self.generic_int_fns = []
+        self.struct_globals = {}  # global name -> struct name (comptime aggregates)
+        self.distinct_globals = {}  # global name -> distinct type name
 
     def fresh(self, prefix):
         self.counter += 1
@@ -760,7 +765,16 @@ class _Gen:
         it.deps.add(fn)
         it.deps.add(s)
         arg = self.lit(0, 6)
-        it.render = lambda ref: "%s :: comptime { %s(%s) };" % (name, ref(fn), arg)
+        ann = None
+        if "typed_user_globals" in self.f and self.rnd.random() < 0.6:
+            aliases = [a for a, t in sorted(self.aliases.items()) if t == s]
+            ann = self.rnd.choice(aliases + [s])
+            it.deps.add(ann)
+        if ann:
+            it.render = lambda ref: "%s : %s : comptime { %s(%s) };" % (name, ref(ann), ref(fn), arg)
+        else:
+            it.render = lambda ref: "%s :: comptime { %s(%s) };" % (name, ref(fn), arg)
+        self.struct_globals[name] = s
         td = ("named", s)
 
         def uses(ref, tmp):
@@ -902,6 +916,85 @@ class _Gen:
         self.p.add(it)
         self.int_fns.append(name)
 
+    def mk_typed_literal(self):
+        """q : S : comptime { S.{ .. } };   or   d : D : comptime { D.(..) };"""
+        r = self.rnd
+        if self.distincts and (not self.structs or r.random() < 0.4):
+            dn = r.choice(sorted(self.distincts))
+            name = self.fresh("dg")
+            it = Item(name, "typed_distinct")
+            it.deps.add(dn)
+            seed = self.iexpr(it, None, depth=1, allow_calls=False)
+            td = ("distinct", dn)
+            it.render = lambda ref: "%s : %s : comptime { %s };" % (
+                name, ref(dn), self.value_text(td, ref, "(%s) %% 90" % seed(ref)))
+            it.uses = lambda ref, tmp: ["emit(i64.(%s));" % ref(name)]
+            self.p.add(it)
+            self.distinct_globals[name] = dn
+            return
+        if not self.structs:
+            return self.mk_struct()
+        sn = r.choice(sorted(self.structs))
+        name = self.fresh("q")
+        it = Item(name, "typed_struct")
+        it.deps.add(sn)
+        it.deps |= self.p.by_name[sn].deps
+        aliases = [a for a, t in sorted(self.aliases.items()) if t == sn]
+        ann = r.choice(aliases + [sn])
+        it.deps.add(ann)
+        seed = self.iexpr(it, None, depth=1, allow_calls=False)
+        td = ("named", sn)
+        it.render = lambda ref: "%s : %s : comptime { %s };" % (
+            name, ref(ann), self.value_text(td, ref, "((%s) %% 90)" % seed(ref)))
+
+        def uses(ref, tmp):
+            v = tmp("tq")
+            return ["%s := %s;" % (v, ref(name)), "emit(%s);" % self.digest_text(td, ref, v)]
+
+        it.uses = uses
+        self.p.add(it)
+        self.struct_globals[name] = sn
+
+    def mk_global_reader(self):
+        r = self.rnd
+        if not self.struct_globals and not self.distinct_globals:
+            return self.mk_comptime_struct() if "comptime_struct" in self.f and self.structs else self.mk_const()
+        if self.struct_globals and (not self.distinct_globals or r.random() < 0.7):
+            g = r.choice(sorted(self.struct_globals))
+            sn = self.struct_globals[g]
+            if r.random() < 0.3:
+                name = self.fresh("wa")
+                it = Item(name, "struct_value_alias")
+                it.deps.add(g)
+                it.render = lambda ref: "%s :: %s;" % (name, ref(g))
+                td = ("named", sn)
+
+                def uses(ref, tmp):
+                    v = tmp("wv")
+                    return ["%s := %s;" % (v, ref(name)), "emit(%s);" % self.digest_text(td, ref, v)]
+
+                it.uses = uses
+                self.p.add(it)
+                self.struct_globals[name] = sn
+                return
+            name = self.fresh("rd")
+            it = Item(name, "reader")
+            it.deps.add(g)
+            it.deps.add(sn)
+            td = ("named", sn)
+            extra = self.iexpr(it, None, depth=1)
+            it.render = lambda ref: "%s :: comptime { i64.((%s + %s) %% 997) };" % (
+                name, self.digest_text(td, ref, ref(g)), extra(ref))
+        else:
+            g = r.choice(sorted(self.distinct_globals))
+            name = self.fresh("rd")
+            it = Item(name, "reader")
+            it.deps.add(g)
+            it.render = lambda ref: "%s : i64 : comptime { i64.(%s) + 1 };" % (name, ref(g))
+        it.uses = lambda ref, tmp: ["emit(%s);" % ref(name)]
+        self.p.add(it)
+        self.int_consts.append(name)
+
     def build(self):
         self.add_prelude()
         r = self.rnd
@@ -945,6 +1038,10 @@ class _Gen:
             menu.append(("type_fn", self.mk_type_fn, 1))
         if "loops" in f:
             menu.append(("loops", self.mk_loop_fn, 2))
+        if "typed_user_globals" in f and ("structs" in f or "distinct" in f):
+            menu.append(("typed_literal", self.mk_typed_literal, 2))
+        if "global_readers" in f:
+            menu.append(("global_reader", self.mk_global_reader, 2))
         weights = [w for _, _, w in menu]
         guard = 0
         while self.count_globals() < self.n and guard < 100:
